@@ -353,8 +353,8 @@ let handle (line : string) : string =
                       M.e_funs = List.map (function L [A "fn"; a; b; f] -> (qname_of a b, ufun_of_sx f) | _ -> failwith "fn") funs;
                       M.e_asis = false } in
            show_res (M.exec en e))
-  | L [A "render"; e] ->
-      (match M.canonical_text (expr_of_sx e) with
+  | L [A "render"; A ab; e] ->
+      (match M.canonical_text (ab = "1") (expr_of_sx e) with
        | None -> "E not-canonical"
        | Some s -> "S " ^ show_str s)
   | L [A "sv"; id; p] -> "S " ^ show_str (M.string_value (Hashtbl.find docs (int_of_sx id)) (path_of_sx p))
